@@ -83,9 +83,11 @@ type world struct {
 	digAccs []common.Address
 	digVals []common.Address
 
-	variants   []*variant
-	varByHash  map[common.Hash][]*variant
-	futureFrom uint64 // unix time of the earliest future-dated block (0 = none)
+	variants []*variant
+	// laterChildren: children re-sealed onto an invalid variant, to be offered in a later offer
+	laterChildren []*variant
+	varByHash     map[common.Hash][]*variant
+	futureFrom    uint64 // unix time of the earliest future-dated block (0 = none)
 
 	// node under test
 	live    *sut
